@@ -1,23 +1,742 @@
-//! K4: the command-line binary as the system under test (filled in below).
-use crate::exec::Outcome;
+//! K4: the command-line binary (built from /repo without the hooks feature) as the system under
+//! test: generated CNF / WCNF / FlatZinc files, seeded configuration flags, stdout and proof files
+//! checked against the reference model; TwinRun for reproducibility (C20).
+use std::collections::BTreeSet;
+use std::process::{Command, Stdio};
+use std::sync::atomic::{AtomicU64, Ordering};
+use std::time::{Duration, Instant};
+
+use crate::dimacs_stream::render;
+use crate::exec::{Outcome, Stats, Violation};
+use crate::fzn::FznModel;
 use crate::json::J;
+use crate::rng::{fnv, Rng};
+
+pub fn cli_binary() -> String {
+    std::env::var("VERIF_CLI").unwrap_or_else(|_| format!("{}/target/cli/debug/pumpkin-solver", crate::verif_root()))
+}
+
+static RUN_COUNTER: AtomicU64 = AtomicU64::new(0);
+
+pub struct RunResult {
+    pub stdout: String,
+    pub stderr: String,
+    pub code: Option<i32>,
+    pub timed_out: bool,
+    pub proof: Option<Vec<u8>>,
+    pub lits: Option<Vec<u8>>,
+}
+
+/// Runs the binary on `text` (written to a scratch directory which is removed afterwards).
+/// `perturb` changes the ambient conditions that must not matter: directory name, environment
+/// size, allocator perturbation.
+pub fn run_binary(ext: &str, text: &str, args: &[String], want_proof: bool, perturb: u64, secs: u64) -> RunResult {
+    let n = RUN_COUNTER.fetch_add(1, Ordering::SeqCst);
+    // directory names of equal length, so that paths in the output (if any) have equal length
+    let dir = format!("{}/.work/cli-{:08}-{:06}-{}", crate::verif_root(), std::process::id(), n % 1_000_000, (b'a' + (perturb % 26) as u8) as char);
+    let _ = std::fs::create_dir_all(&dir);
+    let file = format!("{dir}/inst.{ext}");
+    std::fs::write(&file, text).expect("write instance");
+    let proof_path = format!("{dir}/proof.drcp");
+    let mut cmd = Command::new(cli_binary());
+    cmd.args(args);
+    if want_proof {
+        cmd.arg("--proof-path").arg(&proof_path);
+    }
+    cmd.arg(&file);
+    cmd.current_dir(&dir);
+    cmd.env_clear();
+    cmd.env("PATH", "/usr/bin:/bin");
+    if perturb != 0 {
+        cmd.env("MALLOC_PERTURB_", ((perturb % 250) + 1).to_string());
+        cmd.env("VERIF_PADDING", "x".repeat((perturb % 1500) as usize));
+        cmd.env("TZ", "Pacific/Kiritimati");
+    }
+    cmd.stdin(Stdio::null()).stdout(Stdio::piped()).stderr(Stdio::piped());
+    let start = Instant::now();
+    let mut result = RunResult { stdout: String::new(), stderr: String::new(), code: None, timed_out: false, proof: None, lits: None };
+    match cmd.spawn() {
+        Ok(mut child) => {
+            let mut out = child.stdout.take().unwrap();
+            let mut err = child.stderr.take().unwrap();
+            let t1 = std::thread::spawn(move || {
+                let mut s = Vec::new();
+                let _ = std::io::Read::read_to_end(&mut out, &mut s);
+                s
+            });
+            let t2 = std::thread::spawn(move || {
+                let mut s = Vec::new();
+                let _ = std::io::Read::read_to_end(&mut err, &mut s);
+                s
+            });
+            loop {
+                match child.try_wait() {
+                    Ok(Some(st)) => {
+                        result.code = st.code();
+                        break;
+                    }
+                    Ok(None) => {
+                        if start.elapsed() > Duration::from_secs(secs) {
+                            let _ = child.kill();
+                            let _ = child.wait();
+                            result.timed_out = true;
+                            break;
+                        }
+                        std::thread::sleep(Duration::from_micros(300));
+                    }
+                    Err(_) => break,
+                }
+            }
+            result.stdout = String::from_utf8_lossy(&t1.join().unwrap_or_default()).to_string();
+            result.stderr = String::from_utf8_lossy(&t2.join().unwrap_or_default()).to_string();
+        }
+        Err(e) => {
+            result.stderr = format!("cannot start {}: {e}", cli_binary());
+        }
+    }
+    if want_proof {
+        result.proof = std::fs::read(&proof_path).ok();
+        result.lits = std::fs::read(format!("{proof_path}.lits")).ok().or_else(|| std::fs::read(format!("{dir}/proof.lits")).ok());
+    }
+    let _ = std::fs::remove_dir_all(&dir);
+    result
+}
+
+#[derive(Clone, Debug, PartialEq)]
+pub enum CliKind {
+    Cnf { num_vars: usize, clauses: Vec<Vec<i32>> },
+    /// clauses in file order; weight == top means hard
+    Wcnf { num_vars: usize, clauses: Vec<(u64, Vec<i32>)>, top: u64 },
+    Fzn(FznModel),
+}
 
 #[derive(Clone, Debug, PartialEq)]
 pub struct CliCase {
     pub prop: String,
+    pub kind: CliKind,
+    pub text: String,
+    pub args: Vec<String>,
+    pub proof: bool,
+    /// C20: two executions under perturbed ambient conditions must produce identical output
+    pub twin: bool,
+}
+
+fn viol(class: &str, msg: String) -> Violation {
+    Violation { class: class.to_string(), msg, op_index: 0 }
+}
+
+fn crash_class(r: &RunResult) -> Option<Violation> {
+    if r.timed_out {
+        return Some(viol("CLI:no-answer-within-time-limit", "the solver did not terminate within the per-run wall-clock limit (no time limit was given to it)".to_string()));
+    }
+    if r.code != Some(0) {
+        let line = r.stderr.lines().chain(r.stdout.lines()).find(|l| l.contains("panicked") || l.contains("rror")).unwrap_or("").to_string();
+        // the panic location, without line number noise from the message
+        let site = line.split("panicked at ").nth(1).map(|s| s.split(':').next().unwrap_or("").rsplit("/src/").next().unwrap_or("").to_string()).unwrap_or_else(|| "error-exit".to_string());
+        let next = r.stderr.lines().skip_while(|l| !l.contains("panicked")).nth(1).unwrap_or("").to_string();
+        return Some(viol(&format!("CLI:crash:{site}"), format!("exit status {:?}: {line} {next}", r.code)));
+    }
+    None
+}
+
+fn sat_assignments(num_vars: usize, clauses: &[Vec<i32>]) -> impl Iterator<Item = u32> + '_ {
+    (0u32..(1u32 << num_vars)).filter(move |m| clauses.iter().all(|c| c.iter().any(|l| lit_true(*l, *m, num_vars))))
+}
+
+fn lit_true(l: i32, mask: u32, num_vars: usize) -> bool {
+    let v = l.unsigned_abs() as usize;
+    if v > num_vars {
+        return false;
+    }
+    ((mask >> (v - 1)) & 1 == 1) == (l > 0)
+}
+
+fn parse_model_line(stdout: &str) -> Option<Vec<i32>> {
+    let line = stdout.lines().find(|l| l.starts_with("v "))?;
+    Some(line[2..].split_whitespace().filter_map(|t| t.parse::<i32>().ok()).filter(|x| *x != 0).collect())
+}
+
+fn model_mask(model: &[i32], num_vars: usize) -> Result<u32, String> {
+    let mut mask = 0u32;
+    for v in 1..=num_vars as i32 {
+        let pos = model.contains(&v);
+        let neg = model.contains(&-v);
+        if pos == neg {
+            return Err(format!("the model line does not assign variable {v} exactly once"));
+        }
+        if pos {
+            mask |= 1 << (v - 1);
+        }
+    }
+    Ok(mask)
+}
+
+/// Forward RUP check of a DRAT-style clause list against the formula.
+fn check_rup(num_vars: usize, formula: &[Vec<i32>], proof_text: &str) -> Result<(), String> {
+    // duplicate literals inside a clause must not count twice during unit propagation
+    let dedup = |c: &Vec<i32>| -> Vec<i32> {
+        let mut d = c.clone();
+        d.sort();
+        d.dedup();
+        d
+    };
+    let mut db: Vec<Vec<i32>> = formula.iter().map(dedup).collect();
+    let mut saw_empty = false;
+    for (ln, line) in proof_text.lines().enumerate() {
+        let line = line.trim();
+        if line.is_empty() || line.starts_with('c') {
+            continue;
+        }
+        if line.starts_with('d') {
+            continue; // deletions only weaken; ignoring them keeps the check sound
+        }
+        let mut lits: Vec<i32> = vec![];
+        let mut terminated = false;
+        for t in line.split_whitespace() {
+            let x: i32 = t.parse().map_err(|_| format!("proof line {}: bad token {t:?}", ln + 1))?;
+            if x == 0 {
+                terminated = true;
+                break;
+            }
+            lits.push(x);
+        }
+        if !terminated {
+            return Err(format!("proof line {} is not terminated by 0", ln + 1));
+        }
+        // assign the negation of the clause and propagate
+        let n = num_vars.max(lits.iter().map(|l| l.unsigned_abs() as usize).max().unwrap_or(0)).max(db.iter().flatten().map(|l| l.unsigned_abs() as usize).max().unwrap_or(0));
+        let mut val: Vec<i8> = vec![0; n + 1];
+        let mut conflict = false;
+        for l in &lits {
+            let v = l.unsigned_abs() as usize;
+            let want = if *l > 0 { -1 } else { 1 };
+            if val[v] == -want {
+                conflict = true; // the clause is a tautology
+            }
+            val[v] = want;
+        }
+        let mut changed = true;
+        while changed && !conflict {
+            changed = false;
+            for c in &db {
+                let mut unassigned = None;
+                let mut n_un = 0;
+                let mut sat = false;
+                for l in c {
+                    let v = l.unsigned_abs() as usize;
+                    let s = if *l > 0 { 1 } else { -1 };
+                    if val[v] == s {
+                        sat = true;
+                        break;
+                    }
+                    if val[v] == 0 {
+                        n_un += 1;
+                        unassigned = Some(*l);
+                    }
+                }
+                if sat {
+                    continue;
+                }
+                if n_un == 0 {
+                    conflict = true;
+                    break;
+                }
+                if n_un == 1 {
+                    let l = unassigned.unwrap();
+                    val[l.unsigned_abs() as usize] = if l > 0 { 1 } else { -1 };
+                    changed = true;
+                }
+            }
+        }
+        if !conflict {
+            return Err(format!("proof line {} ({line:?}) does not follow by reverse unit propagation", ln + 1));
+        }
+        if lits.is_empty() {
+            saw_empty = true;
+        }
+        db.push(dedup(&lits));
+    }
+    if !saw_empty {
+        return Err("the proof does not contain the empty clause".to_string());
+    }
+    Ok(())
+}
+
+/// Removes what legitimately differs between two runs: wall-clock statistics.
+fn normalise_output(s: &str) -> String {
+    s.lines().filter(|l| !l.to_ascii_lowercase().contains("time")).collect::<Vec<_>>().join("\n")
+}
+
+pub fn config_args(rng: &mut Rng, kind: &str) -> Vec<String> {
+    let mut a: Vec<String> = vec![];
+    let mut push = |x: &str| a.push(x.to_string());
+    if rng.chance(0.4) {
+        push("--conflict-resolver");
+        push(if rng.chance(0.35) { "no-learning" } else { "uip" });
+    }
+    if rng.chance(0.3) {
+        push("--no-learning-minimise");
+    }
+    match rng.below(5) {
+        0 => push("--no-restarts"),
+        1 | 2 => {
+            push("--restart-base-interval");
+            push(&rng.range(1, 4).to_string());
+            push("--restart-min-initial-conflicts");
+            push(&rng.range(0, 4).to_string());
+            push("--restart-lbd-coef");
+            push("0");
+            if rng.chance(0.5) {
+                push("--restart-sequence-generator-type");
+                push(*rng.pick(&["constant", "luby", "geometric"]));
+                push("--restart-geometric-coef");
+                push("2.0");
+            }
+        }
+        _ => {}
+    }
+    if rng.chance(0.4) {
+        push("--learning-max-num-clauses");
+        push(&rng.pick(&[0, 1, 2, 5, 4000]).to_string());
+        push("--learning-lbd-threshold");
+        push(&rng.pick(&[0, 1, 2, 5]).to_string());
+        push("--learning-sorting-strategy");
+        push(*rng.pick(&["lbd", "activity"]));
+    }
+    push("-r");
+    push(&rng.range(0, 1000).to_string());
+    if kind == "fzn" && rng.chance(0.5) {
+        push("--cumulative-propagation-method");
+        push(*rng.pick(&[
+            "time-table-per-point",
+            "time-table-per-point-incremental",
+            "time-table-per-point-incremental-synchronised",
+            "time-table-over-interval",
+            "time-table-over-interval-incremental",
+            "time-table-over-interval-incremental-synchronised",
+        ]));
+        push("--cumulative-explanation-type");
+        push(*rng.pick(&["naive", "big-step", "pointwise"]));
+        if rng.chance(0.5) {
+            push("--cumulative-allow-holes");
+        }
+        if rng.chance(0.5) {
+            push("--cumulative-generate-sequence");
+        }
+        if rng.chance(0.5) {
+            push("--cumulative-incremental-backtracking");
+        }
+    }
+    a
+}
+
+fn gen_clauses(rng: &mut Rng, num_vars: usize, n: usize, max_len: usize) -> Vec<Vec<i32>> {
+    (0..n)
+        .map(|_| {
+            let k = match rng.below(10) {
+                0 => 0,
+                1 | 2 => 1,
+                _ => rng.range(1, max_len as i64) as usize,
+            };
+            (0..k)
+                .map(|_| {
+                    let v = rng.range32(1, num_vars as i32);
+                    if rng.chance(0.5) {
+                        v
+                    } else {
+                        -v
+                    }
+                })
+                .collect()
+        })
+        .collect()
 }
 
 impl CliCase {
+    pub fn generate_cnf(prop: &str, rng: &mut Rng, twin: bool) -> CliCase {
+        let num_vars = rng.range(1, 10) as usize;
+        let ratio = *rng.pick(&[1usize, 2, 4, 5, 6]);
+        let n = if rng.chance(0.1) { 0 } else { rng.range(1, (num_vars * ratio).max(1) as i64) as usize };
+        let mut clauses = gen_clauses(rng, num_vars, n, 3);
+        if rng.chance(0.9) {
+            // empty clauses make everything trivially UNSAT; keep them rare
+            clauses.retain(|c| !c.is_empty());
+        }
+        if rng.chance(0.2) && !clauses.is_empty() {
+            let c = clauses[rng.below(clauses.len())].clone();
+            clauses.push(c); // duplicate clause
+        }
+        if rng.chance(0.15) {
+            let v = rng.range32(1, num_vars as i32);
+            clauses.push(vec![v, -v]); // tautology
+        }
+        let wl: Vec<(u64, Vec<i32>)> = clauses.iter().map(|c| (0u64, c.clone())).collect();
+        let wild = rng.chance(0.5);
+        let mut text = render(rng, false, num_vars, &wl, 0, wild);
+        if rng.chance(0.2) {
+            // a leading comment which moves the 8 KiB boundary of the buffered reader onto a
+            // seeded byte of the body
+            let target = 8192usize.saturating_sub(rng.below(text.len().max(1)));
+            let pad = target.saturating_sub(3);
+            text = format!("c {}\n{}", "x".repeat(pad), text);
+        }
+        let proof = rng.chance(0.6);
+        let mut args = config_args(rng, "cnf");
+        if twin && rng.chance(0.7) {
+            args.push("-s".to_string());
+        }
+        CliCase { prop: prop.to_string(), kind: CliKind::Cnf { num_vars, clauses }, text, args, proof, twin }
+    }
+
+    pub fn generate_wcnf(prop: &str, rng: &mut Rng, twin: bool) -> CliCase {
+        let num_vars = rng.range(1, 7) as usize;
+        let unweighted = rng.chance(0.4);
+        let top = *rng.pick(&[20u64, 1000, (1 << 31) - 1]);
+        let nh = rng.range(0, 6) as usize;
+        let ns = rng.range(0, 7) as usize;
+        let mut hard = gen_clauses(rng, num_vars, nh, 3);
+        if rng.chance(0.9) {
+            hard.retain(|c| !c.is_empty());
+        }
+        let w_all = if rng.chance(0.6) { 1 } else { rng.range(2, 9) as u32 };
+        let soft: Vec<(u32, Vec<i32>)> = gen_clauses(rng, num_vars, ns, 2)
+            .into_iter()
+            .map(|c| {
+                let w = if unweighted {
+                    w_all
+                } else if rng.chance(0.15) && top > 1000 {
+                    rng.range(1_000_000, (top - 1) as i64 / 8) as u32
+                } else {
+                    rng.range(1, 9) as u32
+                };
+                (w, c)
+            })
+            .collect();
+        let total: u64 = soft.iter().map(|(w, _)| *w as u64).sum();
+        let top = top.max(total + 1).min((1 << 31) - 1);
+        let mut all: Vec<(u64, Vec<i32>)> = hard.iter().map(|c| (top, c.clone())).collect();
+        all.extend(soft.iter().map(|(w, c)| (*w as u64, c.clone())));
+        // interleave hard and soft clauses
+        for i in (1..all.len()).rev() {
+            let j = rng.below(i + 1);
+            all.swap(i, j);
+        }
+        let wild = rng.chance(0.3);
+        let text = render(rng, true, num_vars, &all, top, wild);
+        let mut args = config_args(rng, "wcnf");
+        // the cardinality-network encoder states its own precondition ("only supported on
+        // unweighted instances"), so it is only paired with instances whose soft clauses all
+        // carry the same weight
+        let softs: Vec<u64> = all.iter().filter(|(w, _)| *w != top).map(|(w, _)| *w).collect();
+        let same_weight = softs.iter().all(|w| *w == softs[0]);
+        args.push("--upper-bound-encoding".to_string());
+        // KF-005: the encoder only handles objective terms of weight exactly 1 (an equal weight
+        // w != 1 is not divided out of the bound, and duplicate unit soft clauses are merged
+        // into one heavier term which trips the precondition); outside a small slice it is paired
+        // with such instances only
+        let units: Vec<i32> = all.iter().filter(|(w, c)| *w != top && c.len() == 1).map(|(_, c)| c[0]).collect();
+        let dup_units = units.iter().enumerate().any(|(i, l)| units[..i].contains(l));
+        let weight_one = softs.iter().all(|w| *w == 1) && !dup_units;
+        let cne_ok = same_weight && (weight_one || rng.chance(0.03));
+        args.push(if cne_ok && rng.chance(0.5) { "cardinality-network".to_string() } else { "generalized-totalizer".to_string() });
+        if twin && rng.chance(0.7) {
+            args.push("-s".to_string());
+        }
+        CliCase { prop: prop.to_string(), kind: CliKind::Wcnf { num_vars, clauses: all, top }, text, args, proof: false, twin }
+    }
+
+    pub fn generate_fzn(prop: &str, rng: &mut Rng, twin: bool) -> CliCase {
+        let model = FznModel::generate(rng, true);
+        let mut args = config_args(rng, "fzn");
+        if model.mode == 0 && rng.chance(0.6) {
+            args.push("-a".to_string());
+        }
+        if rng.chance(0.3) {
+            args.push("-f".to_string());
+        }
+        if model.mode != 0 {
+            args.push("--optimisation-strategy".to_string());
+            args.push(rng.pick(&["linear-sat-unsat", "linear-unsat-sat"]).to_string());
+        }
+        let mut proof = false;
+        if twin {
+            if rng.chance(0.6) {
+                args.push("-s".to_string());
+            }
+            if rng.chance(0.5) {
+                proof = true;
+                args.push("--proof-type".to_string());
+                args.push(rng.pick(&["scaffold", "full", "with-hints"]).to_string());
+            }
+        }
+        let text = model.emit();
+        CliCase { prop: prop.to_string(), kind: CliKind::Fzn(model), text, args, proof, twin }
+    }
+
     pub fn to_json(&self) -> J {
-        J::obj(vec![("type", J::s("cli")), ("prop", J::s(&self.prop))])
+        let kind = match &self.kind {
+            CliKind::Cnf { num_vars, clauses } => J::obj(vec![("k", J::s("cnf")), ("num_vars", J::u(*num_vars as u64)), ("clauses", J::Arr(clauses.iter().map(|c| J::ints(c)).collect()))]),
+            CliKind::Wcnf { num_vars, clauses, top } => J::obj(vec![
+                ("k", J::s("wcnf")),
+                ("num_vars", J::u(*num_vars as u64)),
+                ("top", J::u(*top)),
+                ("clauses", J::Arr(clauses.iter().map(|(w, c)| J::obj(vec![("w", J::u(*w)), ("lits", J::ints(c))])).collect())),
+            ]),
+            CliKind::Fzn(m) => J::obj(vec![("k", J::s("fzn")), ("model", m.to_json())]),
+        };
+        J::obj(vec![
+            ("type", J::s("cli")),
+            ("prop", J::s(&self.prop)),
+            ("kind", kind),
+            ("text", J::s(&self.text)),
+            ("args", J::Arr(self.args.iter().map(|a| J::s(a)).collect())),
+            ("proof", J::Bool(self.proof)),
+            ("twin", J::Bool(self.twin)),
+        ])
     }
+
     pub fn from_json(j: &J) -> CliCase {
-        CliCase { prop: j.at("prop").as_str().to_string() }
+        let k = j.at("kind");
+        let kind = match k.at("k").as_str() {
+            "cnf" => CliKind::Cnf { num_vars: k.at("num_vars").as_usize(), clauses: k.at("clauses").as_arr().iter().map(|c| c.as_ints()).collect() },
+            "wcnf" => CliKind::Wcnf {
+                num_vars: k.at("num_vars").as_usize(),
+                top: k.at("top").as_u64(),
+                clauses: k.at("clauses").as_arr().iter().map(|c| (c.at("w").as_u64(), c.at("lits").as_ints())).collect(),
+            },
+            _ => CliKind::Fzn(FznModel::from_json(k.at("model"))),
+        };
+        let mut text = j.at("text").as_str().to_string();
+        if text.is_empty() {
+            if let CliKind::Fzn(m) = &kind {
+                text = m.emit();
+            }
+        }
+        CliCase {
+            prop: j.at("prop").as_str().to_string(),
+            kind,
+            text,
+            args: j.at("args").as_arr().iter().map(|a| a.as_str().to_string()).collect(),
+            proof: j.at("proof").as_bool(),
+            twin: j.at("twin").as_bool(),
+        }
     }
+
+    fn rerender(&mut self) {
+        match &self.kind {
+            CliKind::Cnf { num_vars, clauses } => {
+                let wl: Vec<(u64, Vec<i32>)> = clauses.iter().map(|c| (0u64, c.clone())).collect();
+                self.text = render(&mut Rng::new(1), false, *num_vars, &wl, 0, false);
+            }
+            CliKind::Wcnf { num_vars, clauses, top } => {
+                self.text = render(&mut Rng::new(1), true, *num_vars, clauses, *top, false);
+            }
+            CliKind::Fzn(m) => self.text = m.emit(),
+        }
+    }
+
     pub fn candidates(&self) -> Vec<CliCase> {
-        vec![]
+        let mut out = vec![];
+        // plain layout first
+        let mut plain = self.clone();
+        plain.rerender();
+        if plain.text != self.text {
+            out.push(plain.clone());
+            return out; // structural shrinking continues from the plain rendering
+        }
+        // drop option groups
+        let mut i = 0;
+        while i < self.args.len() {
+            let takes_value = !matches!(self.args[i].as_str(), "--no-restarts" | "--no-learning-minimise" | "-s" | "-a" | "-f" | "--cumulative-allow-holes" | "--cumulative-generate-sequence" | "--cumulative-incremental-backtracking");
+            let n = if takes_value { 2 } else { 1 };
+            if self.args[i] != "--upper-bound-encoding" {
+                let mut c = self.clone();
+                c.args.drain(i..(i + n).min(c.args.len()));
+                out.push(c);
+            }
+            i += n;
+        }
+        if self.proof && !self.twin {
+            let mut c = self.clone();
+            c.proof = false;
+            out.push(c);
+        }
+        match &self.kind {
+            CliKind::Cnf { num_vars, clauses } => {
+                for i in (0..clauses.len()).rev() {
+                    let mut cl = clauses.clone();
+                    cl.remove(i);
+                    let mut c = self.clone();
+                    c.kind = CliKind::Cnf { num_vars: *num_vars, clauses: cl };
+                    c.rerender();
+                    out.push(c);
+                }
+                for i in 0..clauses.len() {
+                    for j in 0..clauses[i].len() {
+                        if clauses[i].len() > 1 {
+                            let mut cl = clauses.clone();
+                            cl[i].remove(j);
+                            let mut c = self.clone();
+                            c.kind = CliKind::Cnf { num_vars: *num_vars, clauses: cl };
+                            c.rerender();
+                            out.push(c);
+                        }
+                    }
+                }
+            }
+            CliKind::Wcnf { num_vars, clauses, top } => {
+                for i in (0..clauses.len()).rev() {
+                    let mut cl = clauses.clone();
+                    cl.remove(i);
+                    let mut c = self.clone();
+                    c.kind = CliKind::Wcnf { num_vars: *num_vars, clauses: cl, top: *top };
+                    c.rerender();
+                    out.push(c);
+                }
+                let cne = self.args.iter().any(|a| a == "cardinality-network");
+                for i in 0..clauses.len() {
+                    if clauses[i].0 != *top && clauses[i].0 > 1 && !cne {
+                        let mut cl = clauses.clone();
+                        cl[i].0 = 1;
+                        let mut c = self.clone();
+                        c.kind = CliKind::Wcnf { num_vars: *num_vars, clauses: cl, top: *top };
+                        c.rerender();
+                        out.push(c);
+                    }
+                    if clauses[i].1.len() > 1 {
+                        let mut cl = clauses.clone();
+                        let _ = cl[i].1.pop();
+                        let mut c = self.clone();
+                        c.kind = CliKind::Wcnf { num_vars: *num_vars, clauses: cl, top: *top };
+                        c.rerender();
+                        out.push(c);
+                    }
+                }
+            }
+            CliKind::Fzn(m) => {
+                for m2 in m.candidates() {
+                    let mut c = self.clone();
+                    c.text = m2.emit();
+                    c.kind = CliKind::Fzn(m2);
+                    out.push(c);
+                }
+            }
+        }
+        out
     }
+
     pub fn run(&self) -> Outcome {
-        unimplemented!()
+        let mut stats = Stats::default();
+        let violation = self.run_inner(&mut stats).err();
+        Outcome { violation, trace: fnv(self.to_json().to_string().as_bytes()), stats, polls_per_op: vec![], aborted: None }
+    }
+
+    fn ext(&self) -> &'static str {
+        match self.kind {
+            CliKind::Cnf { .. } => "cnf",
+            CliKind::Wcnf { .. } => "wcnf",
+            CliKind::Fzn(_) => "fzn",
+        }
+    }
+
+    fn run_inner(&self, stats: &mut Stats) -> Result<(), Violation> {
+        let r = run_binary(self.ext(), &self.text, &self.args, self.proof, 0, 6);
+        stats.solves += 1;
+        // the number of search decisions makes a run non-trivial; -s is not always on, so count
+        // the printed lines instead (>= 2: a verdict and a model / several solutions)
+        stats.decisions = r.stdout.lines().count() as u64;
+        if self.twin {
+            let r2 = run_binary(self.ext(), &self.text, &self.args, self.proof, 1 + (fnv(self.text.as_bytes()) % 1000), 6);
+            stats.solves += 1;
+            if r.timed_out || r2.timed_out {
+                // an execution cut off by the harness's own wall-clock limit has a truncated
+                // output; nothing can be concluded from comparing it
+                stats.inconclusive += 1;
+                return Ok(());
+            }
+            let a = normalise_output(&r.stdout);
+            let b = normalise_output(&r2.stdout);
+            if a != b || r.code != r2.code {
+                let diff = a.lines().zip(b.lines()).find(|(x, y)| x != y).map(|(x, y)| format!("{x:?} vs {y:?}")).unwrap_or_else(|| format!("{} vs {} lines", a.lines().count(), b.lines().count()));
+                return Err(viol("H-TWIN:stdout-differs", format!("two executions of the same command line differ in their output: {diff}")));
+            }
+            if r.proof != r2.proof {
+                return Err(viol("H-TWIN:proof-differs", "two executions of the same command line wrote different proof files".to_string()));
+            }
+            if r.lits != r2.lits {
+                return Err(viol("H-TWIN:literal-definitions-differ", "two executions of the same command line wrote different literal definition files".to_string()));
+            }
+            // a crash is not a reproducibility violation as long as it reproduces
+            return Ok(());
+        }
+        if let Some(v) = crash_class(&r) {
+            return Err(v);
+        }
+        match &self.kind {
+            CliKind::Cnf { num_vars, clauses } => {
+                let is_sat = sat_assignments(*num_vars, clauses).next().is_some();
+                let verdict = r.stdout.lines().find(|l| l.starts_with("s ")).unwrap_or("").to_string();
+                match verdict.as_str() {
+                    "s SATISFIABLE" => {
+                        if !is_sat {
+                            return Err(viol("H-CNF:sat-but-unsatisfiable", "s SATISFIABLE for an unsatisfiable formula".to_string()));
+                        }
+                        let model = parse_model_line(&r.stdout).ok_or_else(|| viol("H-CNF:no-model-line", "s SATISFIABLE without a v line".to_string()))?;
+                        let mask = model_mask(&model, *num_vars).map_err(|e| viol("H-CNF:bad-model-line", e))?;
+                        if let Some(c) = clauses.iter().find(|c| !c.iter().any(|l| lit_true(*l, mask, *num_vars))) {
+                            return Err(viol("H-CNF:model-violates-clause", format!("the printed model {model:?} falsifies clause {c:?}")));
+                        }
+                    }
+                    "s UNSATISFIABLE" => {
+                        if is_sat {
+                            return Err(viol("H-CNF:unsat-but-satisfiable", "s UNSATISFIABLE for a satisfiable formula".to_string()));
+                        }
+                        if self.proof {
+                            let proof = r.proof.clone().ok_or_else(|| viol("H-DRAT:no-proof-file", "no proof file was written".to_string()))?;
+                            let text = String::from_utf8_lossy(&proof).to_string();
+                            check_rup(*num_vars, clauses, &text).map_err(|e| viol("H-DRAT:invalid-proof", format!("{e}; proof:\n{text}")))?;
+                            stats.learned = text.lines().count() as u64;
+                        }
+                    }
+                    other => return Err(viol("H-CNF:no-verdict", format!("unexpected status line {other:?}; stdout: {:?}", r.stdout))),
+                }
+            }
+            CliKind::Wcnf { num_vars, clauses, top } => {
+                let hard: Vec<Vec<i32>> = clauses.iter().filter(|(w, _)| w == top).map(|(_, c)| c.clone()).collect();
+                let soft: Vec<(u32, Vec<i32>)> = clauses.iter().filter(|(w, _)| w != top).map(|(w, c)| (*w as u32, c.clone())).collect();
+                let (hard, soft) = (&hard, &soft);
+                let cost = |m: u32| -> u64 { soft.iter().filter(|(_, c)| !c.iter().any(|l| lit_true(*l, m, *num_vars))).map(|(w, _)| *w as u64).sum() };
+                let optimum = sat_assignments(*num_vars, hard).map(cost).min();
+                let verdict = r.stdout.lines().find(|l| l.starts_with("s ")).unwrap_or("").to_string();
+                match (verdict.as_str(), optimum) {
+                    ("s UNSATISFIABLE", None) => {}
+                    ("s UNSATISFIABLE", Some(o)) => return Err(viol("H-MAXSAT:unsat-but-satisfiable", format!("s UNSATISFIABLE but the hard clauses are satisfiable (optimum {o})"))),
+                    ("s OPTIMUM FOUND", None) => return Err(viol("H-MAXSAT:optimum-but-unsatisfiable", "s OPTIMUM FOUND but the hard clauses are unsatisfiable".to_string())),
+                    ("s OPTIMUM FOUND", Some(o)) => {
+                        let last_o = r.stdout.lines().filter(|l| l.starts_with("o ")).last().and_then(|l| l[2..].trim().parse::<u64>().ok());
+                        if last_o != Some(o) {
+                            return Err(viol("H-MAXSAT:wrong-optimum", format!("the last o line is {last_o:?} but the optimum is {o}")));
+                        }
+                        let model = parse_model_line(&r.stdout).ok_or_else(|| viol("H-MAXSAT:no-model-line", "no v line".to_string()))?;
+                        let mask = model_mask(&model, *num_vars).map_err(|e| viol("H-MAXSAT:bad-model-line", e))?;
+                        if let Some(c) = hard.iter().find(|c| !c.iter().any(|l| lit_true(*l, mask, *num_vars))) {
+                            return Err(viol("H-MAXSAT:model-violates-hard-clause", format!("the printed model {model:?} falsifies hard clause {c:?}")));
+                        }
+                        if cost(mask) != o {
+                            return Err(viol("H-MAXSAT:model-cost-differs", format!("the printed model {model:?} costs {} but the reported optimum is {o}", cost(mask))));
+                        }
+                    }
+                    (other, _) => return Err(viol("H-MAXSAT:no-verdict", format!("unexpected status line {other:?}; stdout: {:?}", r.stdout))),
+                }
+            }
+            CliKind::Fzn(m) => {
+                let all = self.args.iter().any(|a| a == "-a");
+                m.judge(&r.stdout, all).map_err(|(c, msg)| viol(&c, msg))?;
+            }
+        }
+        Ok(())
     }
 }
+
+#[allow(dead_code)]
+fn _unused(_: BTreeSet<u8>) {}
